@@ -636,8 +636,17 @@ fn impl_object_for_struct(ast: &DeriveInput, fields: &Fields) -> SynStream {
                 let #name = {
                     match dict.remove(#key) {
                         Some(primitive) =>
-                            match <#ty as pdf::object::Object>::from_primitive(primitive, resolve) {
+                            match <#ty as pdf::object::Object>::from_primitive(primitive.clone(), resolve) {
                                 Ok(obj) => obj,
+                                // a reference to a missing object is null: the same as no entry
+                                Err(ref e) if pdf::object::is_missing_reference(&primitive, e) =>
+                                    match <#ty as pdf::object::Object>::from_primitive(pdf::primitive::Primitive::Null, resolve) {
+                                        Ok(obj) => obj,
+                                        Err(_) => return Err(pdf::error::PdfError::MissingEntry {
+                                            typ: #typ,
+                                            field: String::from(stringify!(#name)),
+                                        })
+                                    },
                                 Err(e) => return Err(pdf::error::PdfError::FromPrimitive {
                                     typ: stringify!(#ty),
                                     field: stringify!(#name),
